@@ -48,6 +48,11 @@ var c15Alphabet = []c15Op{
 	{kind: "pat", pattern: `^TEXT/`},
 	{kind: "lit", literal: "*/*"},
 	{kind: "lit", literal: "text/*"},
+	// registered strings are taken literally: these are not registrations for text/html or text/css
+	{kind: "litfunc", literal: "text/html; charset=utf-8"},
+	{kind: "lit", literal: "text/html;charset=utf-8"},
+	{kind: "lit", literal: "Text/HTML"},
+	{kind: "litfunc", literal: " text/css"},
 }
 
 const c15Reduced = 8
@@ -424,7 +429,7 @@ func C15(run *core.Run) {
 	if bad := c15CmdCheck(run, false); bad != "" {
 		run.Violation(core.Key("cmd", []byte(bad)), bad, map[string]string{"what": bad})
 	}
-	run.Finish("registration histories: every sequence up to the length bound over a reduced alphabet of 8 overlapping literal/pattern registrations (exhaustive) + seeded random histories up to length 40 over 17 registrations, each followed by all listed media type strings (well-formed ones compared with the reference model, others for Match/Minify agreement); plus AddCmd/AddCmdRegexp registries exercised sequentially and from 8 goroutines; a case is a history; non-trivial = at least two registrations",
+	run.Finish("registration histories: every sequence up to the length bound over a reduced alphabet of 8 overlapping literal/pattern registrations (exhaustive) + seeded random histories up to length 40 over 21 registrations, each followed by all listed media type strings (well-formed ones compared with the reference model, others for Match/Minify agreement); plus AddCmd/AddCmdRegexp registries exercised sequentially and from 8 goroutines; a case is a history; non-trivial = at least two registrations",
 		[]string{"reference model: literal first, then first registered matching pattern, else ErrNotExist; parameters after the first ';'", "media type splitting is only predicted for well-formed strings; for other strings Match and Minify must agree"}, 100, false)
 }
 
